@@ -769,3 +769,318 @@ if __name__ == "__main__":
     t, e = generate(sys.argv[1] if len(sys.argv) > 1 else "/repo/src/serif")
     print(t)
     print(e, file=sys.stderr)
+
+
+# ---------------------------------------------------------------------------------------------
+# Table.inner_join / join / full_join: the build loop, the uniqueness test after it, the probe loop, the sweep
+# ---------------------------------------------------------------------------------------------
+def _u(node):
+    return ast.unparse(node)
+
+
+_LEAN_WORDS = {"matches", "from", "at", "end", "then", "else", "do", "fun", "let", "have", "show", "with", "open", "in", "by", "Type", "def"}
+
+
+def _ln(name):
+    """a Python local as a Lean identifier"""
+    return name + "_" if name in _LEAN_WORDS else name
+
+
+class _JoinMethod:
+    """One join method. The translation keeps the *decisions* of the code — which row pairs are emitted, in which order,
+    when the call raises — and abstracts the copying of cells: a group of loops that appends, for every left column, the
+    cell of left row X (or None) and, for every right column, the cell of right row Y (or None) is one output row
+    `(X?, Y?)` (the model's `Pair`; `Join.assemble` turns pairs into columns)."""
+
+    def __init__(self, f, tag):
+        self.f, self.tag = f, tag
+        self.alias = {}          # local name -> ('get', dict) | ('add', set) | ('cells',)
+        self.inits = {}
+        for s in ast.walk(f):
+            if isinstance(s, ast.Assign) and len(s.targets) == 1 and isinstance(s.targets[0], ast.Name):
+                n, v = s.targets[0].id, _u(s.value)
+                if v in ("right_index.get",):
+                    self.alias[n] = ("get", "right_index")
+                elif v == "matched_right_rows.add":
+                    self.alias[n] = ("add", "matched_right_rows")
+                elif v == "[col.append for col in result_data]":
+                    self.alias[n] = ("cells",)
+                elif v in ("{}", "set()"):
+                    self.inits[n] = v
+        need = {"right_index": "{}", "duplicates": "{}", "left_keys_seen": "set()"}
+        if tag == "Full":
+            need["matched_right_rows"] = "set()"
+        for k, v in need.items():
+            if self.inits.get(k) != v:
+                raise TranslateError(f"{f.name}: initial value of {k}")
+        for flag, side in (("check_right_unique", "right"), ("check_left_unique", "left")):
+            ok = [s for s in f.body if isinstance(s, ast.Assign) and _u(s.targets[0]) == flag
+                  and isinstance(s.value, ast.Compare) and _u(s.value.left) == "expect" and isinstance(s.value.ops[0], ast.In)]
+            if len(ok) != 1:
+                raise TranslateError(f"{f.name}: {flag} is not `expect in (...)` (its members are read by extract_consts)")
+
+    # ---- expressions ------------------------------------------------------------------------
+    def bexpr(self, node, optlists):
+        if isinstance(node, ast.BoolOp):
+            op = " && " if isinstance(node.op, ast.And) else " || "
+            return "(" + op.join(self.bexpr(v, optlists) for v in node.values) + ")"
+        if isinstance(node, ast.UnaryOp) and isinstance(node.op, ast.Not):
+            return f"(!{self.bexpr(node.operand, optlists)})"
+        if isinstance(node, ast.Name):
+            if node.id in ("check_right_unique", "check_left_unique"):
+                return node.id
+            if node.id in optlists:
+                return f"(pyTruthy {_ln(node.id)})"                     # None or an empty list is falsy
+            if node.id == "duplicates":
+                return "(!duplicates.isEmpty)"                     # truth value of a dict
+        if isinstance(node, ast.Compare) and len(node.ops) == 1 and isinstance(node.comparators[0], ast.Name):
+            l, r = _u(node.left), node.comparators[0].id
+            if r in ("duplicates", "left_keys_seen", "matched_right_rows") and isinstance(node.left, ast.Name):
+                lean = {"matched_right_rows": "matched"}.get(r, r)
+                if isinstance(node.ops[0], ast.In):
+                    return f"({lean}.contains {l})"
+                if isinstance(node.ops[0], ast.NotIn):
+                    return f"(!{lean}.contains {l})"
+        raise TranslateError(f"{self.f.name}: condition {_u(node)[:60]}")
+
+    def is_key_assign(self, s, cols, var):
+        return isinstance(s, ast.Assign) and _u(s) == f"key = tuple((col[{var}] for col in {cols}))"
+
+    def is_hash_guard(self, s):
+        return (isinstance(s, ast.If) and _u(s.test) == "validate_hashable" and not s.orelse and len(s.body) == 1
+                and isinstance(s.body[0], ast.Expr) and "_validate_key_tuple_hashable" in _u(s.body[0]))
+
+    def get_call(self, node):
+        """`right_index.get(key)` or its pre-bound alias"""
+        if isinstance(node, ast.Call) and len(node.args) == 1 and _u(node.args[0]) == "key" and not node.keywords:
+            f = node.func
+            if _u(f) == "right_index.get" or (isinstance(f, ast.Name) and self.alias.get(f.id) == ("get", "right_index")):
+                return True
+        return False
+
+    # ---- build loop -------------------------------------------------------------------------
+    def build(self, loop):
+        var = _u(loop.target)
+        end = "(right_index, duplicates)"
+
+        def block(stmts, opt, buckets, ind):
+            pad = " " * ind
+            if not stmts:
+                return pad + end
+            s, rest = stmts[0], stmts[1:]
+            if self.is_key_assign(s, "right_keys", var) or self.is_hash_guard(s):
+                return block(rest, opt, buckets, ind)
+            if isinstance(s, ast.Assign) and isinstance(s.targets[0], ast.Name) and self.get_call(s.value):
+                n = s.targets[0].id
+                return pad + f"let {n} := Dict.get? right_index key\n" + block(rest, opt | {n}, buckets | {n}, ind)
+            if isinstance(s, ast.Assign) and _u(s) == f"right_index[key] = [{var}]":
+                return pad + f"let right_index := Dict.upsert right_index key (fun _ => [{var}])\n" + block(rest, opt, buckets, ind)
+            if isinstance(s, ast.Assign) and _u(s.targets[0]) == "duplicates[key]" and isinstance(s.value, ast.Name) \
+                    and s.value.id in buckets and s.value.id not in opt:
+                # a dict assignment; only the KEYS of `duplicates` are ever used (truth value; the values feed the message)
+                return (pad + "let duplicates := (if duplicates.contains key then duplicates else duplicates ++ [key])\n"
+                        + block(rest, opt, buckets, ind))
+            if isinstance(s, ast.Expr) and isinstance(s.value, ast.Call) and isinstance(s.value.func, ast.Attribute) \
+                    and s.value.func.attr == "append" and isinstance(s.value.func.value, ast.Name) \
+                    and s.value.func.value.id in buckets and s.value.func.value.id not in opt and _u(s.value.args[0]) == var:
+                n = s.value.func.value.id
+                # the bucket IS the list stored in the dict: appending to it changes right_index[key]
+                return (pad + f"let {n} := {n} ++ [{var}]\n" + pad + f"let right_index := Dict.upsert right_index key (fun _ => {n})\n"
+                        + block(rest, opt, buckets, ind))
+            if isinstance(s, ast.If):
+                t = s.test
+                if isinstance(t, ast.Compare) and isinstance(t.left, ast.Name) and t.left.id in opt and len(t.ops) == 1 \
+                        and isinstance(t.comparators[0], ast.Constant) and t.comparators[0].value is None:
+                    n = t.left.id
+                    a, b = (s.body, s.orelse) if isinstance(t.ops[0], ast.Is) else (s.orelse, s.body)
+                    return (pad + f"match {n} with\n" + pad + "| none =>\n" + block(a + rest, opt - {n}, buckets - {n}, ind + 4) + "\n"
+                            + pad + f"| some {n} =>\n" + block(b + rest, opt - {n}, buckets, ind + 4))
+                return (pad + f"if {self.bexpr(t, set())} then\n" + block(s.body + rest, opt, buckets, ind + 2) + "\n" + pad + "else\n"
+                        + block(s.orelse + rest, opt, buckets, ind + 2))
+            raise TranslateError(f"{self.f.name} build loop: {_u(s)[:60]}")
+
+        body = block(loop.body, set(), set(), 2)
+        return (f"/-- translated from the body of the build loop `for {var} in range(right_nrows)` of `Table.{self.f.name}`\n"
+                f"    (`key` is the key tuple of right row `{var}`; state: `right_index`, keys of `duplicates`) -/\n"
+                f"def buildStepT{self.tag} {{K : Type}} [DecidableEq K] (check_right_unique : Bool)\n"
+                f"    (st : Dict K (List Nat) × List K) (key : K) ({var} : Nat) : Dict K (List Nat) × List K :=\n"
+                f"  let right_index := st.1\n  let duplicates := st.2\n" + body)
+
+    # ---- rows appended cell by cell -----------------------------------------------------------
+    def cell_group(self, stmts):
+        """longest prefix of `stmts` that appends ONE output row -> (lean pair, number of statements) or None"""
+        left = right = None
+        n = 0
+        cells = [k for k, v in self.alias.items() if v == ("cells",)]
+        for s in stmts:
+            if isinstance(s, ast.Assign) and _u(s) == "base = n_left_cols":
+                n += 1
+                continue
+            if not (isinstance(s, ast.For) and len(s.body) == 1 and not s.orelse and isinstance(s.body[0], ast.Expr)):
+                break
+            call = s.body[0].value
+            if not (isinstance(call, ast.Call) and isinstance(call.func, ast.Subscript) and _u(call.func.value) in cells
+                    and len(call.args) == 1):
+                break
+            tgt, it, slot, arg = _u(s.target), _u(s.iter), _u(call.func.slice), call.args[0]
+            if (tgt, it, slot) == ("(c_idx, col)", "enumerate(left_cols)", "c_idx") and isinstance(arg, ast.Subscript) and _u(arg.value) == "col":
+                side, val = "L", f"some {_u(arg.slice)}"
+            elif (tgt, it, slot) == ("c_idx", "range(n_left_cols)", "c_idx") and _u(arg) == "None":
+                side, val = "L", "none"
+            elif (tgt, it, slot) == ("(offset, col)", "enumerate(right_cols)", "base + offset") and isinstance(arg, ast.Subscript) and _u(arg.value) == "col":
+                side, val = "R", f"some {_u(arg.slice)}"
+            elif (tgt, it, slot) == ("offset", "range(n_right_cols)", "base + offset") and _u(arg) == "None":
+                side, val = "R", "none"
+            else:
+                break
+            if side == "L":
+                if left is not None:
+                    break
+                left = val
+            else:
+                if right is not None:
+                    break
+                right = val
+            n += 1
+        if left is None and right is None:
+            return None
+        if left is None or right is None:
+            raise TranslateError(f"{self.f.name}: a row is appended to one side only")
+        return f"({left}, {right})", n
+
+    # ---- probe loop -------------------------------------------------------------------------
+    def probe(self, loop):
+        var = _u(loop.target)
+        end = ".ok (left_keys_seen, out, matched)"
+
+        def inner(stmts, ivar, ind):
+            """body of `for right_idx in matches`: no raise, no continue"""
+            pad = " " * ind
+            if not stmts:
+                return pad + "(out, matched)"
+            g = self.cell_group(stmts)
+            if g:
+                return pad + f"let out := out ++ [{g[0]}]\n" + inner(stmts[g[1]:], ivar, ind)
+            s, rest = stmts[0], stmts[1:]
+            if isinstance(s, ast.Expr) and isinstance(s.value, ast.Call) and len(s.value.args) == 1 and _u(s.value.args[0]) == ivar:
+                f = s.value.func
+                if _u(f) == "matched_right_rows.add" or (isinstance(f, ast.Name) and self.alias.get(f.id) == ("add", "matched_right_rows")):
+                    return pad + f"let matched := matched ++ [{ivar}]\n" + inner(rest, ivar, ind)
+            raise TranslateError(f"{self.f.name} match loop: {_u(s)[:60]}")
+
+        def block(stmts, optlists, ind):
+            pad = " " * ind
+            if not stmts:
+                return pad + end
+            g = self.cell_group(stmts)
+            if g:
+                return pad + f"let out := out ++ [{g[0]}]\n" + block(stmts[g[1]:], optlists, ind)
+            s, rest = stmts[0], stmts[1:]
+            if self.is_key_assign(s, "left_keys", var) or self.is_hash_guard(s):
+                return block(rest, optlists, ind)
+            if isinstance(s, ast.Continue):
+                return pad + end
+            if isinstance(s, ast.Raise):
+                if not _u(s.exc).startswith("SerifValueError("):
+                    raise TranslateError(f"{self.f.name}: raises {_u(s.exc)[:30]}")
+                return pad + ".error Err.value"
+            if isinstance(s, ast.Expr) and _u(s) == "left_keys_seen.add(key)":
+                return pad + "let left_keys_seen := key :: left_keys_seen\n" + block(rest, optlists, ind)
+            if isinstance(s, ast.Assign) and isinstance(s.targets[0], ast.Name) and self.get_call(s.value):
+                n = s.targets[0].id
+                return pad + f"let {_ln(n)} := Dict.get? right_index key\n" + block(rest, optlists | {n}, ind)
+            if isinstance(s, ast.For) and isinstance(s.iter, ast.Name) and s.iter.id in optlists and isinstance(s.target, ast.Name) and not s.orelse:
+                iv = s.target.id
+                return (pad + f"let r := (pyIter {_ln(s.iter.id)}).foldl (fun (st : List Pair × List Nat) {iv} =>\n"
+                        + pad + "    let out := st.1\n" + pad + "    let matched := st.2\n" + inner(s.body, iv, ind + 4) + ") (out, matched)\n"
+                        + pad + "let out := r.1\n" + pad + "let matched := r.2\n" + block(rest, optlists, ind))
+            if isinstance(s, ast.If):
+                return (pad + f"if {self.bexpr(s.test, optlists)} then\n" + block(s.body + rest, optlists, ind + 2) + "\n" + pad + "else\n"
+                        + block(s.orelse + rest, optlists, ind + 2))
+            raise TranslateError(f"{self.f.name} probe loop: {_u(s)[:60]}")
+
+        body = block(loop.body, set(), 2)
+        return (f"/-- translated from the body of the probe loop `for {var} in range(left_nrows)` of `Table.{self.f.name}` (`key` is the key\n"
+                f"    tuple of left row `{var}`; state: `left_keys_seen`, the output rows so far, the matched right rows; `.error` = the\n"
+                f"    `raise SerifValueError`) -/\n"
+                f"def probeStepT{self.tag} {{K : Type}} [DecidableEq K] (check_left_unique : Bool) (right_index : Dict K (List Nat))\n"
+                f"    (st : List K × List Pair × List Nat) (key : K) ({var} : Nat) : Except Err (List K × List Pair × List Nat) :=\n"
+                f"  let left_keys_seen := st.1\n  let out := st.2.1\n  let matched := st.2.2\n" + body)
+
+    # ---- sweep (full join) --------------------------------------------------------------------
+    def sweep(self, loop):
+        var = _u(loop.target)
+        if not (len(loop.body) == 1 and isinstance(loop.body[0], ast.If) and not loop.body[0].orelse):
+            raise TranslateError("full_join sweep: shape")
+        test = self.bexpr(loop.body[0].test, set())
+        g = self.cell_group(loop.body[0].body)
+        if not g or g[1] != len(loop.body[0].body):
+            raise TranslateError("full_join sweep: body")
+        return (f"/-- translated from the sweep `for {var} in range(right_nrows)` of `Table.full_join` -/\n"
+                f"def sweepT{self.tag} (right_nrows : Nat) (matched : List Nat) : List Pair :=\n"
+                f"  (List.range right_nrows).foldl (fun out {var} => if {test} then out ++ [{g[0]}] else out) []")
+
+    # ---- the method ----------------------------------------------------------------------------
+    def translate(self):
+        body = self.f.body
+        loops = [(i, s) for i, s in enumerate(body) if isinstance(s, ast.For) and _u(s.iter) in ("range(right_nrows)", "range(left_nrows)")]
+        want = ["range(right_nrows)", "range(left_nrows)"] + (["range(right_nrows)"] if self.tag == "Full" else [])
+        if [_u(s.iter) for _, s in loops] != want:
+            raise TranslateError(f"{self.f.name}: loops {[_u(s.iter) for _, s in loops]}")
+        # the uniqueness test between the build loop and the probe loop
+        between = [s for s in body[loops[0][0] + 1: loops[1][0]] if isinstance(s, ast.If) and any(isinstance(x, ast.Raise) for x in s.body)]
+        if len(between) != 1 or between[0].orelse or not _u(between[0].body[-1].exc).startswith("SerifValueError("):
+            raise TranslateError(f"{self.f.name}: test after the build loop")
+        # nothing else between the phases may raise or return
+        for lo, hi in ((loops[0][0], loops[1][0]),) + (((loops[1][0], loops[2][0]),) if self.tag == "Full" else ()):
+            for s in body[lo + 1: hi]:
+                if s is between[0]:
+                    continue
+                if any(isinstance(x, (ast.Raise, ast.Return)) for x in ast.walk(s)):
+                    raise TranslateError(f"{self.f.name}: unexpected exit between the loops")
+        test = self.bexpr(between[0].test, set())
+        parts = [self.build(loops[0][1]), self.probe(loops[1][1])]
+        tail = "st.2.1"
+        if self.tag == "Full":
+            parts.append(self.sweep(loops[2][1]))
+            tail = f"(st.2.1 ++ sweepT{self.tag} rkeys.length st.2.2)"
+        bv, pv = _u(loops[0][1].target), _u(loops[1][1].target)
+        parts.append(
+            f"/-- translated from `Table.{self.f.name}` after key validation: initial state, build loop, `if {_u(between[0].test)}: raise`,\n"
+            f"    probe loop{', sweep' if self.tag == 'Full' else ''}; the result is the list of output rows as (left row?, right row?) -/\n"
+            f"def joinCoreT{self.tag} {{K : Type}} [DecidableEq K] (check_right_unique check_left_unique : Bool) (lkeys rkeys : List K) :\n"
+            f"    Except Err (List Pair) :=\n"
+            f"  let b := rkeys.zipIdx.foldl (fun st p => buildStepT{self.tag} check_right_unique st p.1 p.2) ([], [])\n"
+            f"  let right_index := b.1\n  let duplicates := b.2\n"
+            f"  if {test} then .error Err.value\n  else\n"
+            f"    match lkeys.zipIdx.foldlM (fun st p => probeStepT{self.tag} check_left_unique right_index st p.1 p.2) ([], [], []) with\n"
+            f"    | .error e => .error e\n    | .ok st => .ok {tail}")
+        return parts
+
+
+def translate_join(src):
+    tree = ast.parse(src)
+    out = ["/-- truth value of `d.get(key)`: `None` and the empty list are falsy -/\n"
+           "def pyTruthy (m : Option (List Nat)) : Bool := match m with | none => false | some l => !l.isEmpty",
+           "/-- `for x in m` (only reached when `m` is truthy, i.e. a list) -/\n"
+           "def pyIter (m : Option (List Nat)) : List Nat := m.getD []"]
+    for meth, tag in (("inner_join", "Inner"), ("join", "Left"), ("full_join", "Full")):
+        out += _JoinMethod(find_func(tree, meth, "Table"), tag).translate()
+    return out
+
+
+def generate_rel(src_dir):
+    """second generated file (relational operations): kept apart so that a source the translator does not understand
+    here cannot take the other ties down"""
+    parts, errors = [], []
+    items = [("join", lambda: translate_join(open(os.path.join(src_dir, "table.py")).read()))]
+    for name, fn in items:
+        try:
+            parts += fn()
+        except Exception as ex:
+            errors.append((name, f"{type(ex).__name__}: {ex}"))
+            parts.append(f"-- {name}: not translated ({type(ex).__name__})")
+    text = ("/- GENERATED by harness/py2lean.py from /repo's working tree — do not edit.\n"
+            "   Loops of Table.inner_join / join / full_join translated statement by statement; equivalence theorems in Serif/Tie/Join.lean. -/\n"
+            "import Serif.Model.Join\n\nnamespace Serif.Gen.TR\nopen Serif Serif.Join\n\n" + "\n\n".join(parts) + "\n\nend Serif.Gen.TR\n")
+    return text, errors
